@@ -109,6 +109,70 @@ let dns_exact (m : int array) : (unit, string) result =
        | Some e -> if e = n then Ok () else Error (Printf.sprintf "%d trailing octets after the message (%d of %d)" (n - e) e n))
   end
 
+(* Canonical form of a DNS message with every name decoded THROUGH its compression pointers:
+   header (without the id), questions, and per RR owner/type/class/ttl/rdata, where names inside
+   the rdata of NS/CNAME/PTR/MX/SOA are decoded too.  A pointer must point backwards into the
+   message (>= 12) and chains must end; anything else is Error. *)
+let dns_canon (m : int array) : (string list, string) result =
+  let n = Array.length m in
+  let exception Bad of string in
+  let u16 o = if o + 2 > n then raise (Bad "cut short") else m.(o) * 256 + m.(o + 1) in
+  (* returns (name, offset after the name in the record) *)
+  let name_at off0 =
+    let b = Buffer.create 32 in
+    let after = ref (-1) in
+    let rec go off hops =
+      if hops > 128 then raise (Bad (Printf.sprintf "pointer loop in the name at %d" off0));
+      if off >= n then raise (Bad (Printf.sprintf "name at %d runs past the end" off0));
+      let l = m.(off) in
+      if l = 0 then (if !after < 0 then after := off + 1)
+      else if l land 0xC0 = 0xC0 then begin
+        if off + 2 > n then raise (Bad "pointer cut short");
+        let target = (l land 0x3F) * 256 + m.(off + 1) in
+        if !after < 0 then after := off + 2;
+        if target < 12 || target >= off then
+          raise (Bad (Printf.sprintf "name at %d: compression pointer at %d points to %d (not backwards into the message)" off0 off target));
+        go target (hops + 1)
+      end else if l < 64 then begin
+        if off + 1 + l > n then raise (Bad (Printf.sprintf "label at %d runs past the end" off));
+        if Buffer.length b > 0 then Buffer.add_char b '.';
+        for i = off + 1 to off + l do
+          let c = m.(i) in
+          if c > 32 && c < 127 && c <> 46 then Buffer.add_char b (Char.lowercase_ascii (Char.chr c))
+          else Buffer.add_string b (Printf.sprintf "\\%03d" c)
+        done;
+        go (off + 1 + l) (hops + 1)
+      end else raise (Bad (Printf.sprintf "label type %d at %d" l off)) in
+    go off0 0;
+    ((if Buffer.length b = 0 then "." else Buffer.contents b), !after) in
+  let hexsub o l = String.concat "" (List.init l (fun i -> Printf.sprintf "%02x" m.(o + i))) in
+  try
+    if n < 12 then raise (Bad "shorter than a header");
+    let out = ref [Printf.sprintf "hdr flags=%04x qd=%d an=%d ns=%d ar=%d" (u16 2) (u16 4) (u16 6) (u16 8) (u16 10)] in
+    let off = ref 12 in
+    for _ = 1 to u16 4 do
+      let (nm, o) = name_at !off in
+      out := Printf.sprintf "q %s %d %d" nm (u16 o) (u16 (o + 2)) :: !out; off := o + 4
+    done;
+    for _ = 1 to u16 6 + u16 8 + u16 10 do
+      let (nm, o) = name_at !off in
+      let ty = u16 o and cl = u16 (o + 2) and rdl = u16 (o + 8) in
+      let ttl = hexsub (o + 4) 4 in
+      let rd = o + 10 in
+      if rd + rdl > n then raise (Bad "rdata runs past the end");
+      let rdata = match ty with
+        | 2 | 5 | 12 -> let (x, e) = name_at rd in if e <> rd + rdl then raise (Bad "name does not fill the rdata") else x
+        | 15 when rdl >= 3 -> let (x, e) = name_at (rd + 2) in if e <> rd + rdl then raise (Bad "name does not fill the rdata") else Printf.sprintf "%d %s" (u16 rd) x
+        | 6 -> let (a, e1) = name_at rd in let (b2, e2) = name_at e1 in
+          if e2 + 20 <> rd + rdl then raise (Bad "SOA rdata length") else a ^ " " ^ b2 ^ " " ^ hexsub e2 20
+        | _ -> hexsub rd rdl in
+      out := Printf.sprintf "rr %s %d %d %s %s" nm ty cl ttl rdata :: !out;
+      off := rd + rdl
+    done;
+    if !off <> n then raise (Bad (Printf.sprintf "%d trailing octets" (n - !off)));
+    Ok (List.rev !out)
+  with Bad why -> Error why
+
 (* process_answer accepts (returns ARES_SUCCESS): empty messages are dropped, anything shorter
    than a DNS header is rejected by ares_dns_parse.  The generators only produce well-formed
    longer messages (built by the simulator with the library's writer). *)
@@ -168,8 +232,19 @@ let analyze (head : string) (fam : string) (lines : string array) : result =
   (* pass 1: messages per socket in transmission order; transmissions (line, socket) per token *)
   let tx_by_sock : (int, string list) Hashtbl.t = Hashtbl.create 8 in
   let tok_tx : (int, (int * int) list) Hashtbl.t = Hashtbl.create 16 in
+  let raw_req : (int, string list) Hashtbl.t = Hashtbl.create 8 in
   Array.iteri (fun li l ->
     if starts_with "REQ " l then (match words l with
+        | _ :: t :: "sendraw" :: hex :: _ ->
+          (* legacy ares_send with caller-built bytes: the question name identifies the token, the
+             canonical (pointer-free) form of the request is what every transmission must carry *)
+          (match tok_of t, dns_canon (Array.of_list (ints_of_hex hex)) with
+           | Some tk, Ok canon ->
+             (match List.find_opt (fun x -> starts_with "q " x) canon with
+              | Some q -> (match words q with _ :: nm :: _ -> Hashtbl.replace tok_of_name nm tk | _ -> ())
+              | None -> ());
+             Hashtbl.replace raw_req tk canon
+           | _ -> ())
         | _ :: t :: _ :: name :: _ -> (match tok_of t with Some tk -> Hashtbl.replace tok_of_name (String.lowercase_ascii name) tk | None -> ())
         | _ -> ())
     else if starts_with "TX " l then begin
@@ -374,6 +449,26 @@ let analyze (head : string) (fam : string) (lines : string array) : result =
              if kv "proto" rest = Some "udp" then
                fail "udp-datagram-not-one-message" (Printf.sprintf "s%d: datagram of %d octets: %s: %s" k (String.length h / 2) why cuth)
              else fail "tcp-frame-malformed" (Printf.sprintf "s%d: frame of %d octets: %s: %s" k (String.length h / 2) why cuth));
+          (* every name of the transmitted message decodes through its compression pointers, and
+             a request given as bytes (sendraw) is transmitted with exactly its content *)
+          (match dns_canon (Array.of_list (ints_of_hex h)) with
+           | Error why ->
+             fail "frame-name-decode" (Printf.sprintf "s%d: %s: %s" k why (if String.length h > 200 then String.sub h 0 200 ^ ".." else h))
+           | Ok canon ->
+             (match List.find_opt (fun x -> starts_with "q " x) canon with
+              | Some q ->
+                (match words q with
+                 | _ :: nm :: _ ->
+                   (match Hashtbl.find_opt tok_of_name nm with
+                    | Some t ->
+                      (match Hashtbl.find_opt raw_req t with
+                       | Some want when want <> canon ->
+                         let d = List.filter (fun x -> not (List.mem x want)) canon in
+                         fail "frame-request-mismatch" (Printf.sprintf "s%d t%d: the transmitted message is not the request: transmitted-only [%s]" k t (String.concat " | " d))
+                       | _ -> ())
+                    | None -> ())
+                 | _ -> ())
+              | None -> ()));
           (match kv "qname" rest, kvi "id" rest with
            | Some qn, Some id ->
              (match Hashtbl.find_opt tok_of_name (String.lowercase_ascii qn) with
@@ -655,7 +750,7 @@ let group_lines file : (int, string array) Hashtbl.t * (int, int) Hashtbl.t =
    length-prefixed frames the library actually hands to sockets"), judged on the frame oracles
    only: no DIFF, no other FAIL kind. *)
 let c03_only = (Sys.getenv_opt "CHAN20_ORACLES" = Some "C03")
-let frame_kinds = ["udp-datagram-not-one-message"; "tcp-frame-malformed"; "tcp-frame-mismatch"; "framing"]
+let frame_kinds = ["udp-datagram-not-one-message"; "tcp-frame-malformed"; "tcp-frame-mismatch"; "framing"; "frame-name-decode"; "frame-request-mismatch"]
 let emit (line : string) =
   if not c03_only then print_string line
   else if starts_with "DIFF " line then ()
@@ -729,7 +824,8 @@ let () =
           if servers <= 1 && a.txs <> c.txs then
             Printf.ksprintf emit "FAIL %d %s messages at the server differ with / without the pending-write callback (%d / %d messages)\n" k pkind
               (List.length a.txs) (List.length c.txs)
-          else if servers > 1 && List.sort compare (List.map snd a.txs) <> List.sort compare (List.map snd c.txs) then
+          else if servers > 1 && (let noid h = if String.length h > 4 then String.sub h 4 (String.length h - 4) else h in
+                                  List.sort compare (List.map (fun (_, h) -> noid h) a.txs) <> List.sort compare (List.map (fun (_, h) -> noid h) c.txs)) then
             Printf.ksprintf emit "FAIL %d %s multiset of messages at the servers differs with / without the pending-write callback\n" k pkind
         end;
         (* metamorphic oracle *)
@@ -750,7 +846,10 @@ let () =
             Printf.ksprintf emit "FAIL %d %s messages at the server differ: segmented=[%s] unsegmented=[%s]\n" k mkind (show a.txs) (show b.txs)
           end
         end else begin
-          let ms l = List.sort compare (List.map snd l) in
+          (* without the query id: with rotation the ids come from the same random stream as the
+             server choices, whose order depends on when answers are processed *)
+          let noid h = if String.length h > 4 then String.sub h 4 (String.length h - 4) else h in
+          let ms l = List.sort compare (List.map (fun (_, h) -> noid h) l) in
           if ms a.txs <> ms b.txs then
             Printf.ksprintf emit "FAIL %d %s multiset of messages received by the servers differs: segmented %d messages, unsegmented %d\n" k mkind (List.length a.txs) (List.length b.txs)
         end
